@@ -314,7 +314,9 @@ func (m *Mon) stepC03C04(sc *StepCtx, si stepInfo) {
 	if sc.Res.OK && (nFail > 0 || nEv > 0) {
 		m.hit("C04", "slash-events", fmt.Sprintf("n%d", minInt(nFail, 4)))
 		if nEv != nFail {
-			m.fail(sc, "C04", "slash-events", cmpClass(bigOf(int64(nEv)), bigOf(int64(nFail)))+"@"+cls, "%d slash events for %d failed requests in %s", nEv, nFail, sc.Step.Desc)
+			// the statement does not speak of events: a mismatch is counted, the deposits,
+			// burns and availability above are what is judged
+			m.hit("C04", "slash-events-differ(not judged)", "")
 		}
 	}
 	dSup := new(big.Int).Sub(bi(post.Supply), bi(pre.Supply))
